@@ -2,10 +2,10 @@
 EXTENDS UrlMachine, Json
 Pm(k, v, eq) == [k |-> k, v |-> v, eq |-> eq]
 U(p, q, hasq) == [path |-> p, q |-> q, hasq |-> hasq]
-PathsQ == {<<"/", "p">>, <<"/", "P", " ">>}
+PathsQ == {<<"/", "p">>, <<"/", "P", " ">>, <<"/", "p", "'">>}
 PathsT == PathsQ \cup {<<"/", "p", "%20">>, <<"/", "~e~">>, <<"/", "%c3%a9">>}
-ValsQ == {<<>>, <<"a">>, <<"A">>, <<"+">>, <<"%20">>, <<"%2B">>}
-ValsT == ValsQ \cup {<<"%2b">>, <<" ">>, <<"~e~">>, <<"%c3%a9">>, <<"\"">>, <<"a", "+", "b">>}
+ValsQ == {<<>>, <<"a">>, <<"A">>, <<"+">>, <<"%20">>, <<"%2B">>, <<"'">>}
+ValsT == ValsQ \cup {<<"%27">>, <<"%2b">>, <<" ">>, <<"~e~">>, <<"%c3%a9">>, <<"\"">>, <<"a", "+", "b">>}
 KeysQ == {<<"k">>, <<"K">>, <<"b">>}
 Param1(Ks, Vs) == {Pm(k, v, v # <<>>) : k \in Ks, v \in Vs} \cup {Pm(k, <<>>, TRUE) : k \in Ks}
 MktParams == {Pm(<<"utm_source">>, <<"x">>, TRUE)}
